@@ -7,6 +7,7 @@ RULES = {
     'C08.B.lattice': 'EXHAUSTIVE whole arc-second lattice 0..359d59m59s, both signs (2 592 000 values): hp2dec, dec2hp, hp2dms, hp2ddm, HPAngle (accepted; .dec .dms .ddm .gon), DMSAngle(d,m,s) (.dec .hp .hpa .ddm), dec2dms, dec2ddm, DECAngle(.hpa .dms .ddm) - every result denotes the same angle within 1e-8 arc-seconds with the same sign, every HP value produced is valid HP',
     'C08.B.vectorised': 'hp2dec_v / dec2hp_v on the whole lattice as arrays (1e-8 arc-seconds)',
     'C08.B.pairs_chains': 'all ordered pairs of the nine notations and random length-3 chains over the conversion graph (direct functions and object methods) on a 1/60 sub-lattice, fractional seconds down to 1e-9", values within 1e-9" of minute/degree boundaries and random reals in [-720, 720], incl. angles in (-1, 0) deg: same angle within 1e-8", same sign',
+    'C08.B.boundaries': 'every whole degree 0..720 and the minute boundaries d 00\' / d 01\' / d 30\' / d 59\' (quick: every degree; thorough: every minute of every 7th degree as well), both signs, approached from both sides at log-spaced distances 1e-1 .. 1e-10 arc-seconds (and 3e-10, 4.9e-10, 5e-10, 5.1e-10, 9e-10, the adjacent floats): decimal degrees -> each of the other eight notations denotes the same angle within 1e-8", every HP value produced is valid',
     'C08.B.validity': 'every HP value with up to 13 decimals and minutes/seconds < 60 is accepted by hp2dec, hp2dms, hp2ddm, HPAngle; HP values with a minutes or seconds field >= 60 are rejected with ValueError by hp2dec and HPAngle',
 }
 EXHAUSTIVE = {'C08.B.lattice', 'C08.B.vectorised'}
@@ -17,6 +18,7 @@ def chunks(tier, seed):
     out = [dict(kind='lattice', d0=d, d1=d + 6) for d in range(0, 360, 6)]
     out += [dict(kind='chains', seed=seed * 67 + i, n=1500 if tier == 'quick' else 30000) for i in range(8)]
     out.append(dict(kind='validity', seed=seed))
+    out += [dict(kind='boundary', d0=d, d1=min(d + 91, 721), thorough=(tier != 'quick')) for d in range(0, 721, 91)]
     return out
 
 
@@ -149,7 +151,7 @@ def work(item):
                         pass
         return [r]
     # ---------------------------------------------------------------- pairs and chains over the conversion graph
-    rng = random.Random(item['seed'])
+    rng = random.Random(item.get('seed', 0))
     r = dict(check='C08.B.pairs_chains', function='angles.*', n=0, keys=set(), failures=[], samples=[])
     import math as M
     KINDS = ('rad', 'dec', 'hp', 'gon', 'DEC', 'HP', 'GON', 'DMS', 'DDM')
@@ -207,6 +209,41 @@ def work(item):
         else:
             v = base * rng.choice([1, -1]) + rng.choice([0, 360]) * rng.choice([0, 1])
         return v
+    if item['kind'] == 'boundary':
+        rb = dict(check='C08.B.boundaries', function='angles.*', n=0, keys=set(), failures=[], samples=[dict(dec=14.999999999999998, to='hp')])
+        offs = [10.0 ** -k for k in range(1, 11)] + [3e-10, 4.9e-10, 5e-10, 5.1e-10, 9e-10, 2e-9, 5e-9]
+        offs = [0.0] + offs + [-o for o in offs]
+        nf = {}
+        for d in range(item['d0'], item['d1']):
+            mins = (0, 1, 30, 59) if not (item['thorough'] and d % 7 == 0) else range(60)
+            for m in mins:
+                b0 = d + m / 60
+                vals = [b0 + o / 3600 for o in offs] + [M.nextafter(b0, 0.0), M.nextafter(b0, 1e9), M.degrees(M.radians(b0))]
+                for v0 in vals:
+                    for dec in (v0, -v0):
+                        if abs(dec) > 720 or (dec == 0 and M.copysign(1, dec) < 0):
+                            continue
+                        for k2 in KINDS:
+                            if k2 == 'dec':
+                                continue
+                            try:
+                                w = convert('dec', dec, k2)
+                                rb['n'] += 1
+                                got = den(k2, w)
+                                ok = abs(got - dec) <= TOL and ((dec < 0) == (got < 0) or abs(dec) <= TOL)
+                                if ok and k2 in ('hp', 'HP') and not valid_hp(w if k2 == 'hp' else w.hp_angle):
+                                    ok = False
+                            except ValueError as ex:
+                                ok, got = False, 'ValueError: %s' % str(ex)[:60]
+                            if not ok:
+                                nf[k2] = nf.get(k2, 0) + 1
+                                if nf[k2] <= 3:
+                                    rb['failures'].append(dict(input=dict(dec=dec, chain=[k2]), what='conversion at a minute/degree boundary changes the angle, its sign, or yields invalid HP', got=got if isinstance(got, str) else float(got)))
+                rb['keys'].add((d, m))
+        for k2, c in nf.items():
+            if c > 3:
+                rb['failures'].append(dict(input=dict(to=k2, more=c - 3), what='further boundary cases counted, not listed'))
+        return [rb]
     for it in range(item['n']):
         dec = start_values()
         if abs(dec) > 720:
